@@ -31,6 +31,24 @@ func runC07(cfg runCfg) error {
 			c.Op = "Exists"
 		}
 		c07One(run, c, false)
+		// two un-indexed -> indexed transitions in one path, several parents at the outer one and several values under an
+		// earlier parent at the inner one (seed C07-5: a buffer shared between the nested look-aheads)
+		if r.chance(0.03) {
+			mk := func(base int) interface{} {
+				var cs []interface{}
+				for j, nc := 0, 1+r.Intn(3); j < nc; j++ {
+					cs = append(cs, map[string]interface{}{"d": []interface{}{float64(base + 2*j + 1), float64(base + 2*j + 2)}})
+				}
+				return map[string]interface{}{"b": []interface{}{map[string]interface{}{"c": cs}, map[string]interface{}{"c": "other"}}}
+			}
+			var as []interface{}
+			for j, na := 0, 2+r.Intn(3); j < na; j++ {
+				as = append(as, mk(10*j))
+			}
+			sm := map[string]interface{}{"a": as}
+			p := r.pick([]string{"a.b[0].c.d[1]", "a.b[0].c.d[0]", "*.b[0].c.d[1]", "a.b[0].*.d[1]", "a.b[1].c.d[0]"})
+			c07One(run, kvCase{Op: "ValuesForPath", Map: sm, Path: p, Sep: ":"}, false)
+		}
 	}
 	return run.finish()
 }
